@@ -123,6 +123,9 @@ def booking_guard_rule(ctx: Ctx, rid: str):
 
 
 def run_extra(ctx: Ctx):
+    # ---------------------------------------------------------------- R03.15 the head of the start slot is set aside for every resource the task books
+    from .c01 import offset_reservation_rule
+    offset_reservation_rule(ctx, "R03.15")
     # ---------------------------------------------------------------- R03.13 booking records identify the task by identity
     from .common import local_id_identity_rule
     local_id_identity_rule(ctx, "R03.13", ("core/resource_scenario.py", "core/task_scenario.py"),
